@@ -2,7 +2,7 @@
    Only statements, each closed by [exact <lemma>] and followed by Print Assumptions. *)
 From Coq Require Import List Arith QArith Qminmax.
 From Coq Require Import Qround ZArith.
-From AIT Require Import Base.Qx C08.Model C08.Spec C08.Proofs C08.Proofs2 C08.Proofs3.
+From AIT Require Import Base.Qx Base.Mdp C08.Model C08.Spec C08.Proofs C08.Proofs2 C08.Proofs3 C08.Proofs4.
 Import ListNotations.
 Local Open Scope Q_scope.
 
@@ -140,6 +140,39 @@ Theorem alias_mass_partial : forall p prob alias, alias_table_ok p prob alias = 
 Proof. exact alias_table_ok_sound. Qed.
 Print Assumptions alias_mass_partial.
 
+(* repaired constructor (fixes/C08-vose.patch, textbook two-worklist Vose): for every probability
+   vector the table has the right shape, aliases in range, and every index has exactly its mass *)
+Theorem alias_mass : forall p, p <> [] -> is_dist p ->
+  let '(prob, alias) := vose_fix p in
+  length prob = length p /\ length alias = length p /\
+  Forall (fun a => (a < length p)%nat) alias /\
+  forall i, (i < length p)%nat -> alias_mass prob alias i == nthq p i.
+Proof. exact alias_mass_lemma. Qed.
+Print Assumptions alias_mass.
+
+(* ---- sampling a model (MDP::Model / SparseModel::sampleSR, POMDP::Model::sampleSOR) follows the
+   model's own tables: next state i is drawn on an interval of length T(s,a,i), the reward is R(s,a),
+   the observation j on an interval of length O(s1,a,j) ---- *)
+Theorem sample_sr_follows_model : forall m s a, wf_mdp m -> (s < nS m)%nat -> (a < nA m)%nat ->
+  forall u, 0 <= u -> u < 1 ->
+  let '(s1, r) := sample_sr m s a u in
+  (s1 < nS m)%nat /\ r = nthq (row (R m) s) a /\
+  forall i, (i < nS m)%nat ->
+    (s1 = i <-> cum (trow m s a) i <= u /\ u < cum (trow m s a) (S i)) /\
+    cum (trow m s a) (S i) - cum (trow m s a) i == nthq (trow m s a) i.
+Proof. exact sample_sr_lemma. Qed.
+Print Assumptions sample_sr_follows_model.
+
+Theorem sample_sor_follows_model : forall m s a, wf_pomdp m -> (s < nS (pm m))%nat -> (a < nA (pm m))%nat ->
+  forall u1 u2, 0 <= u1 -> u1 < 1 -> 0 <= u2 -> u2 < 1 ->
+  let '(s1, o, r) := sample_sor m s a u1 u2 in
+  (s1, r) = sample_sr (pm m) s a u1 /\ (s1 < nS (pm m))%nat /\ (o < nO m)%nat /\
+  forall j, (j < nO m)%nat ->
+    (o = j <-> cum (orow m s1 a) j <= u2 /\ u2 < cum (orow m s1 a) (S j)) /\
+    cum (orow m s1 a) (S j) - cum (orow m s1 a) j == nthq (orow m s1 a) j.
+Proof. exact sample_sor_lemma. Qed.
+Print Assumptions sample_sor_follows_model.
+
 (* hypotheses are satisfiable on non-trivial inputs *)
 Example ex_dense_nonvacuous :
   is_dist [1 # 4; 0; 1 # 2; 1 # 4] /\ sample_dense [1 # 4; 0; 1 # 2; 1 # 4] (1 # 4) = 2%nat /\
@@ -174,3 +207,8 @@ Example ex_alias_fix_ok :
   (let '(prob, alias) := vose_fix [1 # 10; 1 # 4; 1 # 10; 3 # 10; 1 # 4] in
    alias_table_ok [1 # 10; 1 # 4; 1 # 10; 3 # 10; 1 # 4] prob alias) = true.
 Proof. exact alias_fix_witnesses. Qed.
+
+Example ex_sample_sr_nonvacuous :
+  let m := {| nS := 2; nA := 1; P := [[[1 # 2; 1 # 2]; [0; 1]]]; R := [[3]; [-(2)]]; gam := 1 # 2 |} in
+  wf_mdpb m = true /\ sample_sr m 0 0 (3 # 4) = (1%nat, 3).
+Proof. split; reflexivity. Qed.
